@@ -1905,3 +1905,115 @@ fn replay(sub: &str, v: &Value) -> Result<Outcome, String> {
         replay_as::<Scenario>(v, &run)
     }
 }
+
+// ---------------------------------------------------------------- coverage-guided tier
+
+/// Fuzz-tier bounds (sub-domain of `strategy()`): one burst expands to at most
+/// 1100 triggers and all scripts of a case together to at most 2400 steps
+/// (two full bursts: a queue can pass 1024 and 2048 uncollected reports).
+const FUZZ_MAX_BURST: u16 = 1100;
+const FUZZ_MAX_STEPS: usize = 2400;
+
+/// Clamp a byte-decoded scenario (engine::bytesde) into the domain of `strategy()` (sub
+/// `manual`):
+/// * 1..=4 tasks of 1..=6 ops; trigger type `kind` in {0,1}, value `v` in 0..4; burst
+///   length out of `arb_burst_len`'s set restricted to <= 1100, i.e. 1..=99, 100, 255,
+///   256, 257, 1000, 1023, 1024, 1025, 1026..=1100 (1101..=2100, 3000, 4097 and 10 000
+///   are left to the random tier); the expanded steps of all scripts together stay
+///   <= 2400 — a burst that does not fit is shortened to the largest admissible length
+///   that does, or becomes a Bump when nothing is left;
+/// * schedule: 3..=16 actions (the generator makes 0..=3 builds ++ 3..=39 of `arb_act`,
+///   and `arb_act` contains `arb_build`, so every sequence of 3..=39 admissible actions
+///   is in its domain; a shorter one is padded with Poll(0)); Build: kind in {0,1}, set =
+///   ascending duplicate-free subset of 0..4 (the empty set is generated too); Kill only
+///   with an index divisible by 4 (otherwise it is a Poll, as in `arb_act`); every other
+///   index is any u16.
+pub fn fuzz_sanitize(sc: &mut Scenario) -> bool {
+    // admissible burst lengths between 100 and FUZZ_MAX_BURST, ascending
+    fn tail() -> Vec<u16> {
+        let mut t = vec![100u16, 255, 256, 257, 1000, 1023, 1024, 1025];
+        t.extend(1026..=FUZZ_MAX_BURST);
+        t
+    }
+    // largest admissible length <= cap (cap >= 1)
+    fn fit(cap: usize, tail: &[u16]) -> u16 {
+        if cap <= 99 {
+            return cap as u16;
+        }
+        tail.iter().copied().filter(|&x| x as usize <= cap).max().unwrap_or(99)
+    }
+    let tail = tail();
+    sc.tasks.truncate(4);
+    if sc.tasks.is_empty() {
+        sc.tasks.push(Vec::new());
+    }
+    // The byte decoder picks enum variants and small integers uniformly; the generator
+    // prefers the first trigger type (9:1), plain `trigger().await` steps, short bursts
+    // (1..=8 mostly) and Noop / Suspend reactions.  Spare bits of the decoded bytes
+    // make a similar split; every value produced is inside the generator's domain.
+    let kind_of = |k: u8| (k % 8 == 7) as u8;
+    let mut budget = FUZZ_MAX_STEPS;
+    for ops in sc.tasks.iter_mut() {
+        ops.truncate(6);
+        if ops.is_empty() {
+            ops.push(TOp::Bump);
+        }
+        for op in ops.iter_mut() {
+            // three quarters of the decoded trigger_noop steps become trigger().await
+            if let TOp::TriggerNoop { kind, v } = *op {
+                if (v >> 2) % 4 != 0 {
+                    *op = TOp::Trigger { kind, v };
+                }
+            }
+            match op {
+                TOp::Trigger { kind, v } | TOp::TriggerNoop { kind, v } => {
+                    *kind = kind_of(*kind);
+                    *v %= 4;
+                    budget = budget.saturating_sub(1);
+                }
+                TOp::Bump => budget = budget.saturating_sub(1),
+                TOp::Burst { kind, v, n, .. } => {
+                    *kind = kind_of(*kind);
+                    *v %= 4;
+                    let (lo, hi) = ((*n & 0xff) as usize, *n >> 8);
+                    let want = match hi % 8 {
+                        0..=4 => 1 + (lo % 8) as u16,
+                        5 | 6 => 9 + (lo % 91) as u16,
+                        _ => tail[lo % tail.len()],
+                    };
+                    if budget == 0 {
+                        *op = TOp::Bump;
+                    } else {
+                        *n = fit((want as usize).min(budget), &tail);
+                        budget -= *n as usize;
+                    }
+                }
+            }
+        }
+    }
+    sc.sched.truncate(39);
+    for a in sc.sched.iter_mut() {
+        // as `arb_act` does: a Kill whose index is not divisible by 4 is a Poll
+        if let Act::Kill(i) = *a {
+            if i % 4 != 0 {
+                *a = Act::Poll(i);
+            }
+        }
+        match a {
+            Act::Build { react, kind, set } => {
+                // three quarters of the decoded Panic reactions become Noop / Suspend
+                if *react == React::Panic && (*kind >> 3) % 4 != 0 {
+                    *react = if (*kind >> 5) & 1 == 0 { React::Noop } else { React::Suspend };
+                }
+                *kind = kind_of(*kind);
+                let mask = set.iter().fold(0u8, |m, b| m | 1 << (b % 4));
+                *set = (0u8..4).filter(|b| mask & (1 << b) != 0).collect();
+            }
+            Act::Kill(_) | Act::Poll(_) | Act::Wait(_) | Act::CancelWait(_) | Act::DropHandle(_) | Act::Drain(_) | Act::DropBarrier { .. } => {}
+        }
+    }
+    while sc.sched.len() < 3 {
+        sc.sched.push(Act::Poll(0));
+    }
+    true
+}
